@@ -95,3 +95,65 @@ Example c14_nonvacuous :
   forallb (fun ch => match c14_replies 4 ch, c14_replies 5 ch with
                      | [[14; 135; 26]], [[15; 27]] => true | _, _ => false end%Z) (c14_lists 3) = true.
 Proof. vm_compute. reflexivity. Qed.
+
+
+(* ------------------------------------------------------------------------------------------
+   The broadcast of one query (model of ports/output/broadcaster.rs, Model/Broadcast.v): for
+   every number of repliers, every sequence of queries with arbitrary filters, every order of
+   completions, failures and spurious wake-ups - between the polls of the broadcast future and
+   inside the polls of other sub-futures - and every amount of the reply iterator the caller
+   consumes: a broadcast that returns Ok yields exactly the replies of the accepting repliers of
+   THIS query, in connection order (the first m of them when the caller takes m).  No stale reply
+   of an earlier query, none missing, none from a filtered-out replier. *)
+Require Import NX.Model.Broadcast NX.Proofs.BroadcastProofs.
+
+Theorem c14_broadcast_replies :
+  forall n ops subs vs f,
+    ~ In BRFuel (b_run (b_init n) (ops ++ [BOPoll])) ->
+    last (b_run (b_init n) (ops ++ [BOPoll])) BRD = BRPoll subs BOk vs ->
+    fut (b_exec (b_init n) ops) = Some f ->
+    vs = expected (b_exec (b_init n) ops) (consume_of f).
+Proof. exact b_run_replies. Qed.
+Print Assumptions c14_broadcast_replies.
+
+(* the invariant behind it (slots hold the matching replies, the pending counter is exact) is kept
+   by every operation *)
+Theorem c14_broadcast_invariant :
+  forall s o s' r, BInv s -> b_step s o = (s', r) -> r <> BRFuel -> BInv s'.
+Proof. exact b_step_inv. Qed.
+Print Assumptions c14_broadcast_invariant.
+
+(* "it returns only after all of them have replied" and no lost wake-up: a Pending multi-replier
+   broadcast leaves the parent armed (waker registered, countdown one, nothing scheduled) ... *)
+Theorem c14_broadcast_pending_armed :
+  forall s s' subs acc st pend m,
+    BInv s -> b_poll s = (s', BRPoll subs BPend []) -> fut s' = Some (FMulti acc st pend m) -> armed s'.
+Proof. exact b_poll_pending_armed. Qed.
+Print Assumptions c14_broadcast_pending_armed.
+
+(* ... so that the next wake-up of any sub-future notifies the parent exactly once and is
+   recorded in the scheduled list (it will be polled by the next poll of the broadcast) *)
+Theorem c14_broadcast_wake_notifies :
+  forall s p, armed s ->
+    notifs (ts_wake s p) = S (notifs s) /\ sched (ts (ts_wake s p)) = [p] /\ registered (ts_wake s p) = false.
+Proof. exact armed_wake_notifies. Qed.
+Print Assumptions c14_broadcast_wake_notifies.
+
+Theorem c14_broadcast_wake_recorded :
+  forall s p, In p (sched (ts (ts_wake s p))) \/ In p (iter (ts (ts_wake s p))).
+Proof. exact wake_is_recorded. Qed.
+Print Assumptions c14_broadcast_wake_recorded.
+
+(* non-vacuity: three repliers, the middle one filtered out of the second query whose replies are
+   only partly consumed; completions arrive inside another sub-future's poll and between polls *)
+Example c14_broadcast_nonvacuous :
+  b_run (b_init 3)
+    [BOQuery [true; true; true] None; BOScript 0 0 [BComplete 2]; BOPoll; BONotifs; BOAct (BComplete 0); BONotifs; BOPoll;
+     BOAct (BComplete 1); BONotifs; BOPoll;
+     BOQuery [true; false; true] (Some 1); BOPoll; BOAct (BComplete 2); BOAct (BComplete 0); BOPoll;
+     BOQuery [true; true; true] None; BOAct (BComplete 0); BOAct (BComplete 1); BOAct (BComplete 2); BOPoll]
+  = [BRQ; BRS; BRPoll [0; 1; 2] BPend []; BRN 0; BRDash; BRN 1; BRPoll [0] BPend [];
+     BRDash; BRN 1; BRPoll [1] BOk [1000; 1001; 1002]%Z;
+     BRQ; BRPoll [0; 2] BPend []; BRDash; BRDash; BRPoll [0; 2] BOk [2000]%Z;
+     BRQ; BRDash; BRDash; BRDash; BRPoll [0; 1; 2] BOk [3000; 3001; 3002]%Z].
+Proof. vm_compute. reflexivity. Qed.
